@@ -152,6 +152,8 @@ def codec_sqlite(prog, rep, rule="CODEC"):
     # SELECT column lists feeding the decoder
     for m in ("get_event", "get_events"):
         ss = [s for s in sites if s.fi.short == f"SqliteStorage.{m}" and s.stmt.kind == "select"]
+        if len(ss) > 1 and len({" ".join(s.stmt.raw.split()) for s in ss}) == 1:
+            ss = ss[:1]  # one statement text run at several sites
         if len(ss) != 1:
             rep.undecided(rule, f"SqliteStorage.{m}", "SELECT", f"{len(ss)} statements")
             continue
